@@ -93,6 +93,12 @@ class World:
                 return True
         return False
 
+    def midtask(self):
+        """called from inside a task body: the task takes time; foreign threads run meanwhile (they block if they need
+        the lock the clock thread is holding)"""
+        self.step()
+        self.run_foreign()
+
     def step(self):
         self.events += 1
         if self.events > self.max_events:
@@ -108,8 +114,16 @@ class FakeLock:
         self.world = world
         self.gap = gap
         self.depth = 0
+        self.clock_depth = 0      # > 0 while the simulated clock thread holds the lock (outside its waits)
+
+    def _foreign_would_block(self):
+        if self.world.in_ext and self.clock_depth > 0:
+            # a foreign thread that needs the lock while the clock thread holds it simply waits for the release: that
+            # behaviour is the path on which the same action runs at the next release / wait point
+            raise PathAbort('foreign thread blocks on the main lock until the clock thread releases it')
 
     def __enter__(self):
+        self._foreign_would_block()
         self.depth += 1
         return self
 
@@ -121,6 +135,7 @@ class FakeLock:
         return False
 
     def acquire(self, *a, **k):
+        self._foreign_would_block()
         self.depth += 1
         return True
 
@@ -129,16 +144,24 @@ class FakeLock:
 
 
 class FakeCond:
-    def __init__(self, world, name='cond'):
+    def __init__(self, world, name='cond', lock=None):
         self.world = world
         self.name = name
         self.notified = False
         self.waiting = False
+        self.lock = lock          # the FakeLock this condition is built on (main._main_lock), if any
 
     def __enter__(self):
+        if self.lock is not None:
+            if self.world.in_ext:
+                self.lock._foreign_would_block()
+            else:
+                self.lock.clock_depth += 1
         return self
 
     def __exit__(self, *a):
+        if self.lock is not None and not self.world.in_ext:
+            self.lock.clock_depth -= 1
         return False
 
     def acquire(self, *a, **k):
@@ -161,6 +184,9 @@ class FakeCond:
         self.notified = False
         self.waiting = True
         t_enter = w.now
+        held = 0
+        if self.lock is not None:
+            held, self.lock.clock_depth = self.lock.clock_depth, 0      # waiting releases the lock
         try:
             deadline = None if timeout is None else t_enter + timeout
             if w.run_foreign(deadline, self):
@@ -178,6 +204,8 @@ class FakeCond:
             return False
         finally:
             self.waiting = False
+            if self.lock is not None:
+                self.lock.clock_depth = held
 
 
 def symx_max(a, b):
@@ -214,7 +242,7 @@ class FakeThreading:
         return FakeThread(target, name, daemon, args)
 
     def Condition(self, lock=None):
-        c = FakeCond(self.world, f'cond{len(self.conds)}')
+        c = FakeCond(self.world, f'cond{len(self.conds)}', lock if isinstance(lock, FakeLock) else None)
         self.conds.append(c)
         return c
 
@@ -259,7 +287,7 @@ class Sim:
         self.fthreading = FakeThreading(w)
         clk.threading = self.fthreading
         clk.SystemClock._task_queue = tsq.TaskQueue()
-        clk.SystemClock._sched_cond = FakeCond(w, 'SystemClock')
+        clk.SystemClock._sched_cond = FakeCond(w, 'SystemClock', self.lock)
         clk.AppClock._sched_lock = self.lock
         clk.AppClock._tick_cond = FakeCond(w, 'AppClock')
         clk.AppClock._scheduler = clk.Scheduler(clk.AppClock, drift=True, recursive=False)
